@@ -10,6 +10,9 @@ From LokyV Require Model.FailLoop Proofs.FailLoopThm.
 From LokyV Require Lib.LockLib Model.LockOrder Proofs.LockOrderThm.
 From LokyV Require Gen.LockOrder.
 Module LockOrderG := LokyV.Gen.LockOrder.
+From LokyV Require Model.WakePipe Proofs.WakePipeThm.
+From LokyV Require Gen.Detect.
+Module DetectG := LokyV.Gen.Detect.
 Import ListNotations.
 
 Theorem C01_manager_never_leaves_a_future_unresolved :
@@ -109,3 +112,23 @@ Theorem C01_lock_order_refuted_with_callbacks_on_a_reusable_executor :
                         LockOrder.mkthread [LockLib.TMgr; LockLib.UserCb] (Some LockLib.LFactory)].
 Proof. split; [exact LockOrderThm.full_relation_refuted | exact LockOrderThm.the_h15_configuration_is_a_circular_wait]. Qed.
 Print Assumptions C01_lock_order_refuted_with_callbacks_on_a_reusable_executor.
+
+(* ---- the wake-up pipe as a bounded buffer (Model/WakePipe.v; finding H18, fixed) ----
+   wakeup() is always called with the shutdown lock held and blocks when the pipe is full; the manager drains the pipe without a lock
+   but takes the shutdown lock itself between two drains when it finds the executor shutting down or broken.  wakeup() writes only
+   when no message is pending (generated fact).  Hence, for every capacity >= 2 and every history of writers and manager steps: at most
+   one message is ever in the pipe, no writer blocks, the writer inside wakeup() can always finish and free the lock: the deadlock
+   "writer blocked on the full pipe with the lock / manager waiting for the lock" is unreachable.  On the pinned source wakeup() always
+   wrote: 16384 wake-ups while the manager was busy, then shutdown(), wedged both threads (findings/H18_real.py). *)
+Theorem C01_no_deadlock_on_the_wakeup_pipe :
+  forall cap es, 2 <= cap ->
+    let s := WakePipe.run DetectG.wakeup_writes_only_when_nothing_is_pending cap es WakePipe.wp0 in
+    WakePipe.deadlocked s = false /\ WakePipe.msgs s <= 1 /\
+    (WakePipe.wr s = WakePipe.WIn -> WakePipe.lock (WakePipe.step DetectG.wakeup_writes_only_when_nothing_is_pending cap s WakePipe.WStep) = WakePipe.Free).
+Proof. exact WakePipeThm.no_deadlock_on_the_wakeup_pipe. Qed.
+Print Assumptions C01_no_deadlock_on_the_wakeup_pipe.
+Example C01_h18_full_pipe_deadlock :
+  let s := WakePipe.run false 3 [WakePipe.WEnter; WakePipe.WStep; WakePipe.WEnter; WakePipe.WStep; WakePipe.WEnter; WakePipe.WStep;
+                                 WakePipe.WEnter; WakePipe.WStep; WakePipe.MLock] WakePipe.wp0 in
+  WakePipe.deadlocked s = true /\ forall e, WakePipe.step false 3 s e = s.
+Proof. exact WakePipeThm.h18_full_pipe_deadlock. Qed.
